@@ -198,6 +198,13 @@ Definition gc_visited_agrees (steps gsteps : list instr) : bool :=
   | None => false
   end.
 
+(* the (cache key, shape) list of the circuit steps: field 5 of a step is the
+   number the harness gave to the string Instr.StringTyped() returned for it
+   (0 = the step does not go through the cache), field 0 the ssa opcode *)
+Definition keyed_shapes (steps_sx : list sx) : list (N * shape) :=
+  flat_map (fun s => let k := getN (nthx 5 s) in
+                     if N.eqb k 0 then [] else [(k, step_shape (getZ (nthx 0 s)) (instr_of_sx s))]) steps_sx.
+
 Definition run_prog (gcf : list instr -> option (list instr)) (inp : sx) : sx :=
   let p := sprog_of_sx (nthx 1 inp) in
   let steps := map instr_of_sx (getL (nthx 5 (nthx 1 inp))) in
@@ -232,7 +239,9 @@ Definition run_prog (gcf : list instr -> option (list instr)) (inp : sx) : sx :=
                      list (2 = not evaluated: more than 4096 wire ids) *)
                   SL [ofB (wf_prog p steps && outbits_ok p steps && gc_visited_agrees steps gsteps); ofB (consts_tabled p steps);
                       if (fold_left N.max (map ct_maxid (ss_trace st)) 0 <=? 4096)%N
-                      then ofB (no_premature_reuse p gsteps) else SZ 2]]
+                      then ofB (no_premature_reuse p gsteps) else SZ 2;
+                      (* the circuit cache is a memo: same key => same shape *)
+                      ofB (memo_ok shape shape_eqb (keyed_shapes (getL (nthx 5 (nthx 1 inp)))) [])]]
           end
       end
   end.
